@@ -52,6 +52,8 @@ pub fn filter_matches<L: Locale>(requested: &[LanguageIdentifier], available: &[
     let mut available_locales: Vec<L> = available.to_vec();
 
     for req in requested.iter().cloned() {
+        let first_match = supported_locales.len();
+
         macro_rules! test_strategy {
             ($self_as_range:expr) => {{
                 let mut match_found = false;
@@ -72,18 +74,20 @@ pub fn filter_matches<L: Locale>(requested: &[LanguageIdentifier], available: &[
         // 2) Try to match against the available locales treated as ranges.
         test_strategy!(true);
 
+        // most specific match first, but only among the matches of this request:
+        // a match for a later request must never go before a match for an earlier one.
+        supported_locales[first_match..].sort_by(|x, y| {
+            let x_specificity = into_specificity(x.as_ref());
+            let y_specificity = into_specificity(y.as_ref());
+            x_specificity.cmp(&y_specificity).reverse()
+        });
+
         // Per Unicode TR35, 4.4 Locale Matching, we don't add likely subtags to
         // requested locales, so we'll skip it from the rest of the steps.
         if req.language.is_empty() {
             continue;
         }
     }
-
-    supported_locales.sort_by(|x, y| {
-        let x_specificity = into_specificity(x.as_ref());
-        let y_specificity = into_specificity(y.as_ref());
-        x_specificity.cmp(&y_specificity).reverse()
-    });
 
     supported_locales
 }
